@@ -44,7 +44,19 @@ EXPLANATION = (
     "to iteration order); R17.5 that TRUE/FALSE are the only instances of "
     "their classes (all absorption tests are identity tests) and simplify to "
     "themselves; R17.6 that the term constructors store their arguments in "
-    "the fields simplify/eq/hash read.  Together these decide the "
+    "the fields simplify/eq/hash read; R17.7 that building a term never "
+    "changes an existing one: every in-place update of the accumulator of "
+    "`simplify_exprs` (add / pop / update / |=) is reached only by bindings "
+    "of the accumulator to a NEW set (set(), a display or comprehension, a "
+    "set operator or union/copy result) - a binding to a nested term's own "
+    "`.exprs` (directly, through a local, or in one arm of a conditional "
+    "expression) would let the update rewrite that term, which is shared, "
+    "hashed and may be used again (reaching definitions, sa.flow may-mode).  "
+    "R17.3 decides the codomain of `_Eq.simplify` (the term itself, a "
+    "structurally equal copy, or FALSE) on the returned expressions alone, "
+    "before any branch test is interpreted: a different returned term is a "
+    "violation even when the tests guarding it are outside the known atoms.  "
+    "Together these decide the "
     "constructor and simplify clauses of C17.  Not decided: Solver.solve and "
     "its use of the pivots (in particular whether taking the union over the "
     "branches of an _Or is meaningful for a variable missing from a branch), "
@@ -59,6 +71,9 @@ ASSUMPTIONS = [
     "the names TRUE/FALSE/_And/_Or denote the module-level objects of "
     "booleq.py inside its functions (no local shadowing; checked)",
     "Solver.solve and the first-approximation machinery are out of scope",
+    "terms are immutable after construction: nothing outside simplify_exprs "
+    "updates a term's `.exprs` in place (R17.7 looks at simplify_exprs only); "
+    "set operators and set.union/copy return new sets (Python semantics)",
 ]
 
 
